@@ -446,13 +446,15 @@ func repoGarbageCollect(repo Repo, conf config.Config, index types.Index, locked
 		}
 	}
 	seen := map[digest.Digest]bool{}
+	// a digest seen as a config or layer may also be a manifest, track the parsed manifests separately
+	walked := map[digest.Digest]bool{}
 	// walk all manifests to note seen digests
 	for len(manifests) > 0 {
 		// work from tail to make deletes easier
 		d := manifests[len(manifests)-1]
 		manifests = manifests[:len(manifests)-1]
 		inIndex[d.Digest] = true
-		if seen[d.Digest] {
+		if walked[d.Digest] {
 			continue
 		}
 		br, err := repo.blobGet(d.Digest, locked)
@@ -460,6 +462,9 @@ func repoGarbageCollect(repo Repo, conf config.Config, index types.Index, locked
 			continue
 		}
 		seen[d.Digest] = true
+		if types.MediaTypeIndex(d.MediaType) || types.MediaTypeImage(d.MediaType) {
+			walked[d.Digest] = true
+		}
 		// parse manifests for descriptors (manifests, config, layers)
 		if types.MediaTypeIndex(d.MediaType) {
 			man := types.Index{}
